@@ -308,15 +308,6 @@ Definition gen_atan2 (y x obs : Z) : bool :=
   same_sign obs y && mag_le obs (PI_bits + 1)
   && (if sgnb x then PIO2_bits - 1 <=? absb obs else absb obs <=? PIO2_bits + 1).
 
-(* does the binary64 quotient y / x round to zero: |y| / |x| <= 2^-1075 *)
-Definition quotient_underflows (y x : Z) : bool :=
-  match dy (absb y), dy (absb x) with
-  | Some (my, ey), Some (mx, ex) =>
-      let em := Z.min (ey + 1075) ex in
-      my * 2 ^ (ey + 1075 - em) <=? mx * 2 ^ (ex - em)
-  | _, _ => false
-  end.
-
 (* pow in the general regime: sign; side of 1; and for integer exponents up to
    64 in magnitude the exact rational x^y to 2^-44 (when far from over/underflow) *)
 Definition gen_pow (x y obs : Z) : bool :=
